@@ -127,6 +127,33 @@ func c04One(o *out, text string, params map[string]interface{}, tag string) {
 			o.fail("", fmt.Sprintf("printing/walking the result of ParseExpr(%q) panics: %v", text, p), rp)
 		}
 	}
+	// the package-level helpers (ParseQuery(s), ParseStatement(s), ParseExpr(s)) are the same parse: no panic, and the
+	// same statement or the same message as a parser made for the text
+	if params == nil {
+		var e1, e2, e3 error
+		var s1 influxql.Statement
+		var q1 *influxql.Query
+		var x1 influxql.Expr
+		pnH := safely(func() {
+			s1, e1 = influxql.ParseStatement(text)
+			q1, e2 = influxql.ParseQuery(text)
+			x1, e3 = influxql.ParseExpr(text)
+		})
+		o.checked()
+		same := func(a error, b error) bool { return (a == nil) == (b == nil) && (a == nil || a.Error() == b.Error()) }
+		var f1, f2, f3 error
+		safely(func() {
+			_, f1 = influxql.NewParser(strings.NewReader(text)).ParseStatement()
+			_, f2 = influxql.NewParser(strings.NewReader(text)).ParseQuery()
+			_, f3 = influxql.NewParser(strings.NewReader(text)).ParseExpr()
+		})
+		if pnH != nil {
+			o.fail("", fmt.Sprintf("a package-level parse helper panics on %q: %v", text, pnH), rp)
+		} else if !same(e1, f1) || !same(e2, f2) || !same(e3, f3) {
+			o.fail("", fmt.Sprintf("the package-level helpers answer %q with %v / %v / %v, a parser made for the text with %v / %v / %v", text, e1, e2, e3, f1, f2, f3), rp)
+		}
+		_, _, _ = s1, q1, x1
+	}
 	if el := time.Since(t0); el > 3*budget {
 		// a slow run may be the machine's doing (a loaded host, a collection in the middle): the parse is timed again,
 		// alone, three times, and only a text that is slow every time counts
